@@ -63,7 +63,7 @@ P = {
    text="All queries and keys of <= 3 characters over {a,e-acute,e-circumflex,2 snowman-block symbols,2 emoji,musical symbol} x d in 0..2 are decided by the automaton and by an O(|q||k|) DP over chars; Set::search results, dead-state soundness and state limits (via the hook) are checked too, as are all |q|,|k| <= 2 over 16 code points at the UTF-8 encoding boundaries, queries of up to 26 characters with d <= 4, distances 3..9, 100, 253..258, 300, 511, 512, 1000 with queries of <= 3 characters, agreement of new() with the default limit of 10 000 states, and sets that also hold byte strings that are not UTF-8 (outside the domain: whether they are returned is recorded only; the valid keys returned must be exactly those within the distance).",
    note="Trusted: the DP edit distance; |k| <= 3 (4 thorough) exhaustive, random beyond.", ref="5/C17"),
  "C18": dict(level="exploration", tech="enumeration/proptest of automaton expression trees against an explicit reference DFA compiler (products, latch, complement) up to the pumping bound",
-   text="Expression trees to depth 3 over Str, Subsequence, AlwaysMatch and every small component DFA with every sound hint assignment are built with the crate's combinators and compared state-by-state with a reference DFA: acceptance of every string up to |Q|+1 over class representatives, can_match=false only if no accepting continuation, will_always_match=true only if all continuations accept; random trees to depth 4, patterns of 256..300 bytes, and the bytes 0x00/0x7f/0x80/0xff always part of the alphabet.",
+   text="Expression trees to depth 3 over Str, Subsequence, AlwaysMatch and every small component DFA with every sound hint assignment are built with the crate's combinators and compared state-by-state with a reference DFA: acceptance of every string up to |Q|+1 over class representatives, can_match=false only if no accepting continuation, will_always_match=true only if all continuations accept; random trees to depth 4, patterns of 256..300 bytes, and the bytes 0x00/0x7f/0x80/0xff always part of the alphabet. Borrowed automata (the blanket impl for references), alone and under each combinator, must accept what the owned composition accepts and have sound hints (brute force over short strings).",
    note="Trusted: the reference compiler in the harness.", ref="5/C18"),
  "C19": dict(level="exploration", tech="differential CLI runs over batch/fd-limit/thread/schedule-seed configurations against a model fold; byte-equality across configurations",
    text="The fst binary (hooks on: seeded delays at channel points, batch trace) is run on generated line/CSV multisets over batch sizes, fd limits, thread counts, merge modes and schedule seeds; output must exist, verify, equal the model fold and be byte-identical across configurations, and equal a sorted build when keys are unique; inputs include CRLF files, files without final newline, empty files anywhere in the list, one input on stdin, keys with NUL / control / CR bytes and long shared prefixes, --force over an existing longer output, values beyond 2^32 and up to ~180 rows (hundreds of batches, several generations); a run that does not finish within 45 seconds is reported as a hang.",
